@@ -67,7 +67,11 @@ class LogicalSolver:
                 'and': CustomAnd, 'or': CustomOr, 
             }
             with ExpressionSolver(self._eval_node, operators) as es:
-                return es.solve(expr)
+                result = es.solve(expr)
+            # a single equality returns a plain boolean: wrap it like the results of all other operators
+            if isinstance(result, (bool, np.bool_)):
+                result = BooleanType(bool(result))
+            return result
                 
 
 class CustomNot(OperatorNot):
